@@ -51,7 +51,8 @@ pub fn setup(cx: &CaseCx) -> Base {
   cx.entropy(1);
   let initial = pp::Server::new(REGISTERED.to_vec()).expect("server");
   let pk = initial.get_public_key();
-  let points: Vec<pp::Point> = vec![pp::Client::blind(b"probe-0").0, pp::Client::blind(b"probe-1").0];
+  // two ordinary requests and the neutral element (a legal point no client produces)
+  let points: Vec<pp::Point> = vec![pp::Client::blind(b"probe-0").0, pp::Client::blind(b"probe-1").0, pp::Point::from(&[0u8; 32][..])];
   let baseline = TAGS.iter().map(|&t| points.iter().map(|p| initial.eval(p, t, false).ok().map(|e| *e.output.as_bytes())).collect()).collect();
   let mut foreign_punctured = pp::Server::new(vec![0, 1, 2, 3, 200]).expect("server");
   for &t in TAGS.iter() {
